@@ -503,58 +503,84 @@ func ruleEFF4(w *World) []Ob {
 			nGates++
 			construct := num.name("entry into " + calleeString(bc.Common()))
 			pos := p.InstrPos(bc)
-			// grow call(s) in this function
-			var grow *ssa.Call
-			allInstrs(fn, func(in2 ssa.Instruction) {
-				c, ok := in2.(*ssa.Call)
-				if ok && c.Common().IsInvoke() && methodName(c.Common().Method) == "grow" && c.Block().Dominates(bc.Block()) {
-					grow = c
+			// the stage entry may sit in a small helper that the route calls after growing: the conditions are then
+			// established at the helper's call sites (parameters mapped to the arguments there)
+			var gate func(f *ssa.Function, site *ssa.Call, args []ssa.Value, depth int) string
+			gate = func(f *ssa.Function, site *ssa.Call, args []ssa.Value, depth int) string {
+				var grow *ssa.Call
+				allInstrs(f, func(in2 ssa.Instruction) {
+					c, ok := in2.(*ssa.Call)
+					if ok && c.Common().IsInvoke() && methodName(c.Common().Method) == "grow" && c.Block().Dominates(site.Block()) {
+						grow = c
+					}
+				})
+				if grow == nil {
+					callers := p.Callers(f)
+					if depth < 2 && f.Parent() == nil && (f.Object() == nil || !f.Object().Exported()) && len(callers) > 0 {
+						for _, ci := range callers {
+							cs, ok := ci.(*ssa.Call)
+							if !ok {
+								return "the helper " + fname(f) + " that enters the " + into + " stage is started with go/defer"
+							}
+							var mapped []ssa.Value
+							for _, a := range args {
+								if prm, isP := resolve(a).(*ssa.Parameter); isP && paramIndex(f, prm) >= 0 && paramIndex(f, prm) < len(cs.Common().Args) {
+									mapped = append(mapped, cs.Common().Args[paramIndex(f, prm)])
+								} else {
+									mapped = append(mapped, a)
+								}
+							}
+							if why := gate(cs.Parent(), cs, mapped, depth+1); why != "" {
+								return why
+							}
+						}
+						return ""
+					}
+					return "no grower.grow call dominates the entry into the " + into + " stage: node paths are not assembled and names not validated"
 				}
-			})
-			if grow == nil {
-				l.bad(fid, construct, pos, "no grower.grow call dominates the entry into the "+into+" stage: node paths are not assembled and names not validated", "gate")
-				return
-			}
-			// enableValidation on the same grower dominating grow
-			evOK := false
-			allInstrs(fn, func(in2 ssa.Instruction) {
-				c, ok := in2.(*ssa.Call)
-				if !ok || !c.Common().IsInvoke() || methodName(c.Common().Method) != "enableValidation" {
-					return
+				// enableValidation on the same grower dominating grow
+				evOK := false
+				allInstrs(f, func(in2 ssa.Instruction) {
+					c, ok := in2.(*ssa.Call)
+					if !ok || !c.Common().IsInvoke() || methodName(c.Common().Method) != "enableValidation" {
+						return
+					}
+					if !sameVar(c.Common().Value, grow.Common().Value) {
+						return
+					}
+					if c.Block() == grow.Block() && instrIndex(c) < instrIndex(grow) || (c.Block() != grow.Block() && c.Block().Dominates(grow.Block())) {
+						evOK = true
+					}
+				})
+				if !evOK {
+					return "grower.enableValidation() does not dominate grower.grow on this route: names such as '../x' or 'a/b' reach the " + into + " stage unvalidated"
 				}
-				if !sameVar(c.Common().Value, grow.Common().Value) {
-					return
-				}
-				if c.Block() == grow.Block() && instrIndex(c) < instrIndex(grow) || (c.Block() != grow.Block() && c.Block().Dominates(grow.Block())) {
-					evOK = true
-				}
-			})
-			if !evOK {
-				l.bad(fid, construct, pos, "grower.enableValidation() does not dominate grower.grow on this route: names such as '../x' or 'a/b' reach the "+into+" stage unvalidated", "gate")
-				return
-			}
-			// (b) error side / data dependence
-			res := grow.Common().Signature().Results()
-			switch {
-			case res.Len() == 1 && isErrorType(res.At(0).Type()):
-				if !guardedNil(grow, bc) {
-					l.bad(fid, construct, pos, "the "+into+" stage is entered without being on the nil side of grow's error: a validation failure would not stop it", "gate")
-					return
-				}
-			default:
-				ex := siblingExtract(grow, 0)
-				dep := false
-				for _, a := range bc.Common().Args {
-					if ex != nil && resolve(a) == ex {
-						dep = true
+				// (b) error side / data dependence
+				res := grow.Common().Signature().Results()
+				switch {
+				case res.Len() == 1 && isErrorType(res.At(0).Type()):
+					if !guardedNil(grow, site) {
+						return "the " + into + " stage is entered without being on the nil side of grow's error: a validation failure would not stop it"
+					}
+				default:
+					ex := siblingExtract(grow, 0)
+					dep := false
+					for _, a := range args {
+						if ex != nil && resolve(a) == ex {
+							dep = true
+						}
+					}
+					if !dep {
+						return "the " + into + " stage does not consume the channel produced by the grow stage: roots can bypass validation"
 					}
 				}
-				if !dep {
-					l.bad(fid, construct, pos, "the "+into+" stage does not consume the channel produced by the grow stage: roots can bypass validation", "gate")
-					return
-				}
+				return ""
 			}
-			l.ok(fid, construct, pos, "enableValidation() dominates grow(); the stage runs only on grow's nil-error side / on grow's output stream", true, "gate")
+			if why := gate(fn, bc, bc.Common().Args, 0); why != "" {
+				l.bad(fid, construct, pos, why, "gate")
+			} else {
+				l.ok(fid, construct, pos, "enableValidation() dominates grow(); the stage runs only on grow's nil-error side / on grow's output stream", true, "gate")
+			}
 		})
 	}
 	if nGates == 0 {
@@ -1358,6 +1384,9 @@ func ruleEFF6(w *World) []Ob {
 
 // coversNode: tested is the slice the node is taken from, or a slice literal containing the node.
 func coversNode(tested, node ssa.Value) bool {
+	if tested == node || sameVar(tested, node) || resolve(tested) == resolve(node) {
+		return true // the test is applied to the node itself
+	}
 	if elems, ok := variadicElems(tested); ok {
 		for _, e := range elems {
 			if sameVar(e, node) {
@@ -1392,14 +1421,72 @@ func statsEveryElement(p *Prog, fn *ssa.Function, nc *nilCtx) string {
 		}
 	}
 	if slice == nil {
+		// a predicate over one node
+		if isExistencePredicate(fn) {
+			return ""
+		}
 		return "no slice parameter"
 	}
+	// library form: slices.ContainsFunc(roots, <existence predicate>) handed back as the result
+	libForm := ""
+	allInstrs(fn, func(in ssa.Instruction) {
+		c, ok := in.(*ssa.Call)
+		if !ok || c.Common().StaticCallee() == nil {
+			return
+		}
+		callee := c.Common().StaticCallee()
+		if o := callee.Origin(); o != nil {
+			callee = o
+		}
+		if callee.Pkg == nil || callee.Pkg.Pkg.Path() != "slices" || callee.Name() != "ContainsFunc" {
+			return
+		}
+		if !sameVar(c.Common().Args[0], slice) {
+			libForm = "slices.ContainsFunc is not applied to the whole roots parameter"
+			return
+		}
+		var pred *ssa.Function
+		switch f := resolve(c.Common().Args[1]).(type) {
+		case *ssa.MakeClosure:
+			pred = f.Fn.(*ssa.Function)
+		case *ssa.Function:
+			pred = f
+		}
+		if pred == nil || !isExistencePredicate(pred) {
+			libForm = "the predicate given to slices.ContainsFunc is not an existence test (os.Stat, !os.IsNotExist)"
+			return
+		}
+		allRet := true
+		allInstrs(fn, func(in2 ssa.Instruction) {
+			if r, ok := in2.(*ssa.Return); ok && (len(rr(r)) != 1 || rr(r)[0] != ssa.Value(c)) {
+				allRet = false
+			}
+		})
+		if allRet {
+			libForm = "ok"
+		} else {
+			libForm = "the result of slices.ContainsFunc is not what the test returns"
+		}
+	})
+	if libForm == "ok" {
+		return ""
+	}
+	if libForm != "" {
+		return libForm
+	}
 	var stat *ssa.Call
+	var hit *ssa.Call // a call of a one-node existence predicate instead of a direct Stat
 	allInstrs(fn, func(in ssa.Instruction) {
 		if c, ok := in.(*ssa.Call); ok && (calleeFullName(c.Common()) == "os.Stat" || calleeFullName(c.Common()) == "os.Lstat") {
 			stat = c
 		}
+		if c, ok := in.(*ssa.Call); ok && c.Common().StaticCallee() != nil && p.InModule(c.Common().StaticCallee()) && isExistencePredicate(c.Common().StaticCallee()) {
+			hit = c
+		}
 	})
+	if stat == nil && hit != nil {
+		stat = hit
+	}
 	if stat == nil {
 		return "no os.Stat call"
 	}
@@ -1446,6 +1533,9 @@ func statsEveryElement(p *Prog, fn *ssa.Function, nc *nilCtx) string {
 			for _, g := range guardsOf(r.Block()) {
 				cond, pol := flattenCond(g.Cond, g.Pol)
 				if c, ok := cond.(*ssa.Call); ok && calleeFullName(c.Common()) == "os.IsNotExist" && !pol && errv != nil && c.Common().Args[0] == errv {
+					okTrue = true
+				}
+				if c, ok := cond.(*ssa.Call); ok && hit != nil && c == hit && pol {
 					okTrue = true
 				}
 			}
@@ -1619,4 +1709,55 @@ func isValidateVerdict(v ssa.Value, seen map[ssa.Value]bool) bool {
 		return true
 	}
 	return false
+}
+
+// isExistencePredicate: a function returning one bool that stats a path and answers "something is there" exactly when
+// the Stat error is not a not-exist error: the result is !os.IsNotExist(err), or constants selected by that test.
+func isExistencePredicate(fn *ssa.Function) bool {
+	if fn == nil || fn.Blocks == nil || fn.Signature.Results().Len() != 1 {
+		return false
+	}
+	if b, ok := fn.Signature.Results().At(0).Type().Underlying().(*types.Basic); !ok || b.Kind() != types.Bool {
+		return false
+	}
+	var stat *ssa.Call
+	nStat := 0
+	allInstrs(fn, func(in ssa.Instruction) {
+		if c, ok := in.(*ssa.Call); ok && (calleeFullName(c.Common()) == "os.Stat" || calleeFullName(c.Common()) == "os.Lstat") {
+			stat = c
+			nStat++
+		}
+	})
+	if nStat != 1 || inLoop(stat) {
+		return false
+	}
+	errv := siblingExtract(stat, 1)
+	if errv == nil {
+		return false
+	}
+	ok := true
+	n := 0
+	allInstrs(fn, func(in ssa.Instruction) {
+		r, isR := in.(*ssa.Return)
+		if !isR {
+			return
+		}
+		n++
+		v := rr(r)[0]
+		if u, isU := v.(*ssa.UnOp); isU && u.Op == token.NOT {
+			if c, isC := u.X.(*ssa.Call); isC && calleeFullName(c.Common()) == "os.IsNotExist" && c.Common().Args[0] == errv {
+				return
+			}
+		}
+		if b, isC := constBool(v); isC {
+			for _, g := range guardsOf(r.Block()) {
+				cond, pol := flattenCond(g.Cond, g.Pol)
+				if c, isCall := cond.(*ssa.Call); isCall && calleeFullName(c.Common()) == "os.IsNotExist" && c.Common().Args[0] == errv && pol == !b {
+					return
+				}
+			}
+		}
+		ok = false
+	})
+	return ok && n > 0
 }
